@@ -424,4 +424,40 @@ PROPS = {
             "AddressSanitizer / Miri are not part of the quick tier",
         ],
     },
+    "C18": {
+        "modules": [T + "C18"],
+        "theorems": [(T + "C18.core_closure_closed", T + "C18"),
+                     (T + "C18.core_closure_has_roots", T + "C18"),
+                     (T + "C18.core_closure_alloc_free", T + "C18"),
+                     (T + "C18.core_ops_alloc_free", T + "C18"),
+                     (T + "C18.numeric_view_consistent", T + "C18"),
+                     (T + "C18.alloc_sites_exact", T + "C18"),
+                     (T + "C18.alloc_gated", T + "C18"),
+                     (T + "C18.stream_helpers_allocate", T + "C18")],
+        "extract_keys": ["effect graph", "alloc gates", "lib.rs gates"],
+        "spec_is_property": True,
+        "extra_cmds": [
+            ("library builds with neither std nor alloc (cargo build --no-default-features)",
+             "cargo build --offline --no-default-features --lib --target-dir /verif/.cache/target/nostd-lib",
+             "/repo/fast-tlsh"),
+        ],
+        "streams": {
+            "quick": [("default", "alloc", 120), ("optdef", "alloc", 60), ("embedded", "alloc", 60),
+                      ("unsafe", "alloc", 60), ("strict", "alloc", 60)],
+            "thorough": [("default", "alloc", 3000), ("optdef", "alloc", 1500), ("embedded", "alloc", 1500),
+                         ("unsafe", "alloc", 1500), ("strict", "alloc", 1500), ("quarter", "alloc", 800),
+                         ("static-sse2", "alloc", 800), ("static-avx2", "alloc", 800), ("hexsimd-only", "alloc", 800),
+                         ("default-dev", "alloc", 500)],
+        },
+        "rule": "alloc: a counting #[global_allocator] in the probe around each core operation group (generator "
+                "incl. all 32 finalizations, parsers accepting and rejecting, serializers, comparison, accessors, "
+                "hash_buf, compare_with) — count must be 0 — and around to_string / hash_stream — count must be "
+                "> 0 (the counter is known to work); the first use per variant includes dispatch initialisation",
+        "assumptions": [
+            "PARTIAL: the theorem is about a syntactic over-approximation of the crate's own code (call edges by "
+            "identifier, allocating constructs from a fixed list); allocations inside core/std/dependencies are "
+            "covered only by the run-time counter",
+            "the closure sets are translator hints; the kernel checks closedness and root membership",
+        ],
+    },
 }
